@@ -286,7 +286,67 @@ impl Leg for Cli {
     }
 }
 
+// ---------------------------------------------------------------------------------------------
+// leg 4: the Python binding against the model (ASCII strings)
+
+pub fn ascii_only(seq: &[u8]) -> Vec<u8> {
+    seq.iter().map(|&b| { let c = b & 0x7f; if c < 4 { b'N' } else { c } }).collect()
+}
+
+pub fn check_python(c: &OneCase) -> Verdict {
+    let mut v = Verdict::new();
+    let rt = rank_table(c.k);
+    let seq = ascii_only(&c.seq);
+    classify(&mut v, &seq, &rt);
+    v.class("python");
+    let tol = if c.norm { 1e-12 } else { 0.0 };
+    let ask = |s: &[u8]| -> Result<Vec<f64>, String> {
+        let r = crate::pyworker::ask(&serde_json::json!({"op": "oligo", "k": c.k, "norm": c.norm, "seq": crate::pyworker::hex(s)}))?;
+        r["ok"].as_array().map(|a| a.iter().map(|x| x.as_f64().unwrap_or(f64::NAN)).collect()).ok_or_else(|| format!("python answered {}", crate::util::trunc(&r.to_string(), 200)))
+    };
+    let base = match ask(&seq) {
+        Ok(b) => b,
+        Err(e) => {
+            v.fail("python-worker", e);
+            return v;
+        }
+    };
+    if let Err((s, m)) = check_vector(&base, &seq, &rt, c.norm, tol) {
+        v.fail(format!("python-{}", s), format!("pykmertools.OligoComputer({}).vectorise_one: {}", c.k, m));
+        return v;
+    }
+    for (name, variant) in [("revcomp", model::revcomp_text(&seq)), ("lower", lower(&seq)), ("t2u", t2u(&seq))] {
+        match ask(&variant) {
+            Ok(r) => {
+                if r.len() != base.len() || r.iter().zip(base.iter()).any(|(a, b)| (a - b).abs() > tol) {
+                    v.fail(format!("python-invariance-{}", name), format!("Python row changes under {}", name));
+                    return v;
+                }
+            }
+            Err(e) => {
+                v.fail("python-worker", e);
+                return v;
+            }
+        }
+    }
+    v
+}
+
+pub struct Python;
+impl Leg for Python {
+    type Case = OneCase;
+    const NAME: &'static str = "python";
+    fn strategy(tier: Tier) -> BoxedStrategy<OneCase> {
+        One::strategy(tier)
+    }
+    fn check(c: &OneCase) -> Verdict {
+        check_python(c)
+    }
+}
+
 pub fn run(ctx: &mut Ctx) {
+    let n = ctx.share(ctx.tier.pick(6_000, 100_000));
+    ctx.run_leg::<Python>(n, false, 500);
     let n = ctx.share(ctx.tier.pick(200_000, 3_000_000));
     ctx.run_leg::<One>(n, false, 2000);
     let n = ctx.share(ctx.tier.pick(6_000, 100_000));
@@ -301,6 +361,7 @@ pub fn replay(leg: &str, case: &serde_json::Value) -> Option<Result<Verdict, Str
         "vectorise-one" => Some(crate::engine::replay_leg::<One>(case)),
         "file-api" => Some(crate::engine::replay_leg::<Files>(case)),
         "cli" => Some(crate::engine::replay_leg::<Cli>(case)),
+        "python" => Some(crate::engine::replay_leg::<Python>(case)),
         _ => None,
     }
 }
